@@ -194,6 +194,99 @@ def run_histories(seed, n_hist, hist_len=6):
             'nontrivial': calls}
 
 
+# ---------------------------------------------------------------- C12: calls that fail late
+LATE_CAUSES = ['id_collision', 'non_string_cell_left', 'non_string_cell_right', 'raising_tokenizer']
+
+
+def run_late_exceptions(seed, n):
+    """Join calls that pass every validation and then raise in the middle of the work: an output
+    column that collides with `_id` (prefix '_' + key attribute 'id'), a non-string cell in an
+    object-dtype join column, a tokenizer that raises on some value.  Whatever the call does, it
+    must hand the tokenizer and the tables back as received (a later call with the same objects
+    must see what it would see in isolation); the follow-up call is executed and compared."""
+    import py_stringmatching as sm
+    rng = random.Random(seed + 1207)
+    problems, calls = [], 0
+    dist = {'cause': {}, 'measure': {}, 'rs0': {}, 'njobs': {}, 'raised': {}}
+    samples = []
+    for i in range(n):
+        m = rng.choice(JOINS)
+        ed = m == 'EDIT_DISTANCE'
+        kind = rng.choice(['qgram2', 'qgram3']) if ed else rng.choice(['ws', 'delim', 'alnum', 'qgram2'])
+        rs0 = rng.random() < 0.6 if ed else rng.random() < 0.4
+        _, tok = T.make_tokenizer(rng, kind, return_set=rs0)
+        L, R, names = T.gen_tables(rng, kind, max_rows=5)
+        lkey, ljoin, rkey, rjoin = names
+        cause = rng.choice(LATE_CAUSES)
+        prefixes = ('l_', 'r_')
+        if cause == 'id_collision':
+            side = rng.choice([0, 1])
+            if side == 0:
+                L = L.rename(columns={lkey: 'id'})
+                lkey = 'id'
+                prefixes = ('_', 'r_')
+            else:
+                R = R.rename(columns={rkey: 'id'})
+                rkey = 'id'
+                prefixes = ('l_', '_')
+            if 'id' in (ljoin, rjoin) or len(set(L.columns)) != len(L.columns) or len(set(R.columns)) != len(R.columns):
+                continue
+        elif cause in ('non_string_cell_left', 'non_string_cell_right'):
+            tb, col = (L, ljoin) if cause.endswith('left') else (R, rjoin)
+            if len(tb) == 0:
+                continue
+            tb[col] = tb[col].astype(object)
+            tb.iloc[rng.randrange(len(tb)), tb.columns.get_loc(col)] = rng.choice([5, 2.5, True])
+        else:
+            bad_at = rng.randint(1, 4)
+            orig = tok.tokenize
+            state = {'n': 0}
+
+            def raising(s_, _orig=orig, _state=state, _bad=bad_at):
+                _state['n'] += 1
+                if _state['n'] == _bad:
+                    raise RuntimeError('tokenizer failed on value %r' % (s_,))
+                return _orig(s_)
+            tok.tokenize = raising
+        names2 = (lkey, ljoin, rkey, rjoin)
+        t = 1 if m in ('OVERLAP', 'EDIT_DISTANCE') else rng.choice([0.3, 0.5, 0.8])
+        op = '<=' if ed else '>='
+        njobs = rng.choice([1, 1, 2, 3])
+        sl, sr, st = snapshot(L), snapshot(R), tok.get_return_set()
+        desc = {'case': i, 'cause': cause, 'measure': m, 'tokenizer': kind, 'return_set_at_entry': rs0,
+                'names': list(names2), 'prefixes': list(prefixes), 'n_jobs': njobs, 't': t,
+                'ltable': L.to_dict(orient='split'), 'rtable': R.to_dict(orient='split')}
+        raised = None
+        try:
+            T.call_join(m, L, R, names2, tok, t, op, True, rng.random() < 0.3, None, None, True, njobs, prefixes=prefixes)
+        except Exception as e:  # noqa
+            raised = e
+        calls += 1
+        if cause == 'raising_tokenizer':
+            del tok.tokenize
+        for kk, vv in (('cause', cause), ('measure', m), ('rs0', rs0), ('njobs', njobs),
+                       ('raised', type(raised).__name__ if raised is not None else 'returned')):
+            dist[kk][str(vv)] = dist[kk].get(str(vv), 0) + 1
+        desc['raised'] = None if raised is None else '%s: %s' % (type(raised).__name__, str(raised)[:120])
+        late = raised is not None
+        if tok.get_return_set() != st:
+            problems.append(dict(desc, what='the call %s and left the tokenizer with return_set=%r (received %r)' % (
+                'raised ' + type(raised).__name__ if late else 'returned', tok.get_return_set(), st),
+                cls='tokenizer_changed_after_exception' if late else 'tokenizer_changed'))
+            # the consequence the property states: a later call with the same tokenizer
+            probe = 'a b a b c'
+            after = tok.tokenize(probe)
+            tok.set_return_set(st)
+            if after != tok.tokenize(probe):
+                problems[-1]['later_call'] = {'value': probe, 'tokens_after_the_failed_call': after,
+                                              'tokens_in_isolation': tok.tokenize(probe)}
+        if not unchanged(L, sl) or not unchanged(R, sr):
+            problems.append(dict(desc, what='an input table was modified by the call', cls='input_mutated'))
+        if len(samples) < 3:
+            samples.append({k2: desc[k2] for k2 in ('cause', 'measure', 'tokenizer', 'return_set_at_entry', 'raised')})
+    return {'evaluations': calls, 'problems': problems, 'distribution': dist, 'samples': samples, 'nontrivial': calls}
+
+
 # ---------------------------------------------------------------- C15: invalid-argument matrix
 INVALID_KINDS = ['ltable_not_df', 'rtable_not_df', 'bad_tokenizer', 'unknown_l_key', 'unknown_r_key',
                  'unknown_l_attr', 'unknown_r_attr', 'unknown_l_out', 'unknown_r_out', 'numeric_l_attr',
@@ -408,7 +501,7 @@ def run_valid_degenerate(seed, n):
         _, tok = T.make_tokenizer(rng, kind, return_set=rng.random() < 0.5)
         shape = rng.choice(['no_rows_l', 'no_rows_r', 'no_rows_both', 'one_row', 'all_missing_l', 'all_missing_both',
                             'all_empty', 'normal'])
-        dtype = rng.choice(['object', 'str'])
+        dtype = rng.choice(['object', 'str', 'string'])
         k = rng.randint(2, 6)
         universe = rng.sample(T.WORDS[:20], k)
 
@@ -424,6 +517,8 @@ def run_valid_degenerate(seed, n):
             df = pd.DataFrame({'id': range(1, nrows + 1), 's': pd.Series(vals, dtype=object)})
             if dtype == 'str':
                 df['s'] = df['s'].astype('str') if nrows and mode != 'missing' else df['s'].astype(pd.StringDtype(na_value=np.nan))
+            elif dtype == 'string':
+                df['s'] = df['s'].astype(pd.StringDtype())      # the NA-backed pandas string dtype
             return df
         nl = 0 if shape in ('no_rows_l', 'no_rows_both') else (1 if shape == 'one_row' else rng.randint(1, 4))
         nr = 0 if shape in ('no_rows_r', 'no_rows_both') else (1 if shape == 'one_row' else rng.randint(1, 4))
